@@ -46,6 +46,7 @@ type ssJob struct {
 	Mut  *ssMut   `json:"mut,omitempty"`
 	End  *ssEnd   `json:"end,omitempty"`
 	Fast bool     `json:"fast,omitempty"` // reduced deadlines: the parent has already seen many full-deadline liveness failures
+	Cl   string   `json:"cl,omitempty"`   // hang class of the job (lib/budget.go)
 }
 
 // Liveness deadlines.  A healthy case is over in well under 50 ms; the full deadlines are the
@@ -715,7 +716,11 @@ func ssChildMain(args []string) {
 				fmt.Fprintln(os.Stderr, "ss child: bad job:", e)
 				os.Exit(2)
 			}
+			t0 := time.Now()
 			res := ssDoJob(&job, root, known)
+			if res.Slow { // a liveness deadline expired in this case: charge what the case cost to the run's hang budget
+				lib.SpendHang(job.Cl, time.Since(t0))
+			}
 			b, _ := json.Marshal(res)
 			out.Write(b)
 			out.WriteByte('\n')
@@ -734,7 +739,8 @@ func ssChildMain(args []string) {
 }
 
 func ssDoJob(job *ssJob, root string, known map[string]*ssKnown) ssResult {
-	ssFast = job.Fast
+	// reduced deadlines: the parent's own rule (ssSlowBudget), or the run's hang budget is used up / its soft deadline passed
+	ssFast = job.Fast || lib.HangExhausted() || lib.Expired()
 	kn := known[job.PID]
 	if kn == nil {
 		if job.Cfg == nil {
@@ -841,8 +847,20 @@ type ssPJob struct {
 
 var ssSlowSeen atomic.Int32
 
+// class is the hang class of the job: property / server kind / mutation kind or way the stream ends.
+func (j *ssPJob) class() string {
+	cl := j.Kind + "/" + j.Cfg.Kind
+	switch {
+	case j.Mut != nil:
+		cl += "/" + j.Mut.Kind
+	case j.End != nil:
+		cl += "/" + j.End.Mode
+	}
+	return cl
+}
+
 func (j *ssPJob) wire(withProg bool) []byte {
-	w := ssJob{Kind: j.Kind, PID: j.PID, Mut: j.Mut, End: j.End, Fast: ssSlowSeen.Load() >= ssSlowBudget}
+	w := ssJob{Kind: j.Kind, PID: j.PID, Mut: j.Mut, End: j.End, Fast: ssSlowSeen.Load() >= ssSlowBudget, Cl: j.class()}
 	if withProg {
 		w.Cfg, w.Prog = &j.Cfg, j.Prog
 	}
@@ -863,6 +881,11 @@ func (p *ssProc) call(j *ssPJob) (res ssResult, alive bool) {
 	}
 	ch := make(chan rd, 1)
 	go func() { l, e := p.out.ReadBytes('\n'); ch <- rd{l, e} }()
+	// the backstop behind the child's own deadlines (which are reduced once the hang budget is used up)
+	tmo := 90 * time.Second
+	if lib.HangExhausted() || lib.Expired() {
+		tmo = 45 * time.Second
+	}
 	select {
 	case r := <-ch:
 		if r.err != nil {
@@ -881,8 +904,9 @@ func (p *ssProc) call(j *ssPJob) (res ssResult, alive bool) {
 			return res, false
 		}
 		return res, true
-	case <-time.After(90 * time.Second):
+	case <-time.After(tmo):
 		p.kill()
+		lib.SpendHang(j.class(), tmo)
 		return ssResult{Timeout: true, Stderr: p.stderr.String()}, false
 	}
 }
@@ -906,6 +930,9 @@ func ssRunPool(base string, n int, jobs []*ssPJob, done func(i int, j *ssPJob, r
 				mu.Unlock()
 				if i >= len(jobs) {
 					break
+				}
+				if lib.Stop(jobs[i].class()) {
+					continue // not run (and done is not called): the run's time budgets forbid its class; lib.BudgetReport counts it
 				}
 				if p == nil {
 					var err error
@@ -1062,7 +1089,7 @@ func (c *ssCollector) confirm(perKey int) {
 		key, head := ssCrashKey(j.Cfg, stderrOf[i])
 		seen[key]++
 		what := "the server process died while serving this stream: " + head
-		if seen[key] <= perKey {
+		if seen[key] <= perKey && !lib.Stopped(j.class()) {
 			alone := ssRunAlone(c.base, j)
 			k2, _ := ssCrashKey(j.Cfg, alone.Stderr)
 			switch {
